@@ -44,6 +44,8 @@ pub struct Shared {
     pub use_http: bool,
     /// HTTP mode: a cache/tmp root that survives this execution (warm-cache executions of C13).
     pub warm_root: Option<PathBuf>,
+    /// Path of an "extra JSON" file handed to the processor (`ProcessorOptions::evil_json`).
+    pub evil_path: Option<PathBuf>,
 }
 
 fn options_of(i: u8) -> ProcessorOptions<'static> {
@@ -514,7 +516,10 @@ pub fn execute(shared: Shared, mode: ExecMode, stack_budget: u64, nthreads: u64)
                     return;
                 }
             };
-            let res = minidump_processor::process_minidump_with_options(&dump, &*provider, options_of(shared.options)).await;
+            let evil_path = shared.evil_path.clone();
+            let mut options: ProcessorOptions<'_> = options_of(shared.options);
+            options.evil_json = evil_path.as_deref();
+            let res = minidump_processor::process_minidump_with_options(&dump, &*provider, options).await;
             match res {
                 Ok(state) => {
                     if slot == 0 {
@@ -703,14 +708,37 @@ pub fn run_c13() -> Outcome {
         all_archs: true,
         focus_unwind_expr: false,
     });
+    // a quarter of the worlds come with an "extra JSON" file (certificates per module — some
+    // modules listed under two certificates —, a CPU microcode version), in the object form or in
+    // the string-that-holds-an-object form
+    let evil: Option<(Scratch, PathBuf)> = if chance("c13.evil_json", 1, 4) {
+        probe("e4.evil_json");
+        let sc = Scratch::new("e4evil");
+        let leaves: Vec<String> = world.modules.iter().map(|m| crate::common::leaf(&m.code_file).to_string()).collect();
+        let l0 = leaves.first().cloned().unwrap_or_default();
+        let l1 = leaves.get(1).cloned().unwrap_or_else(|| "other.dll".into());
+        let info = json!({"Cert A": [l0, l1], "Cert B": [l0], "Cert C": [l1, "other.dll"], "Cert D": [l0], "Cert E": [l0]});
+        let doc = if chance("c13.evil_json.as_string", 1, 2) {
+            json!({"ModuleSignatureInfo": info.to_string(), "CPUMicrocodeVersion": "0x1234"})
+        } else {
+            json!({"ModuleSignatureInfo": info, "CPUMicrocodeVersion": "0xabc"})
+        };
+        let p = sc.root.join("extra.json");
+        std::fs::write(&p, doc.to_string()).expect("write extra json");
+        Some((sc, p))
+    } else {
+        None
+    };
     let shared = Shared {
         dump: Arc::new(world.dump.clone()),
         modules: Arc::new(world.modules.clone()),
         options: ch("c13.options", 3) as u8,
         use_http,
         warm_root: warm.as_ref().map(|w| w.root.clone()),
+        evil_path: evil.as_ref().map(|(_, p)| p.clone()),
     };
     let nexec = 3 + ch("c13.nexec", 4) as usize;
+    let _ = &evil;
     let companions = ch("c13.companions", 3);
     // budgets from what the processor can actually use as a stack (any thread may be walked from
     // the exception context, i.e. inside the largest region)
@@ -1066,6 +1094,7 @@ pub fn run_c03() -> Outcome {
         options: ch("c03.options", 3) as u8,
         use_http,
         warm_root: None,
+        evil_path: None,
     };
     // budgets come from what the processor will actually see: the parsed (possibly damaged) dump
     let (stack_budget, nthreads, max_region) = measure(&world.dump, &world);
@@ -1240,6 +1269,7 @@ pub fn run_c12_pipeline() -> Outcome {
         options: ch("c12p.options", 3) as u8,
         use_http: false,
         warm_root: None,
+        evil_path: None,
     };
     let companions = ch("c12p.companions", 3);
     let (stack_budget, nthreads, _max_region) = measure(&world.dump, &world);
